@@ -207,13 +207,18 @@ func (m *model) defaultPorts() []uint16 {
 	return []uint16{uint16(m.port)}
 }
 
-// ports of a connection made without any HTTPS record (lenient: both defaults for http URLs).
+// ports of a TLS or QUIC connection made without a usable HTTPS record. An http
+// URL (default port or :80) that is served over TLS has been upgraded, and the
+// upgraded URL is the https one at the https default port (RFC 9460 9.5): a
+// TLS handshake sent to port 80 is not an upgrade to https.
 func (m *model) fallbackPorts() []uint16 {
 	switch {
 	case m.port >= 0 && m.port != 80:
 		return []uint16{uint16(m.port)}
-	case m.port == 80, m.o.Scheme == "http":
-		return []uint16{80, 443}
+	case m.o.Scheme == "http":
+		return []uint16{443}
+	case m.port == 80:
+		return []uint16{80, 443} // https://host:80 - the statement is silent: lenient
 	}
 	return []uint16{443}
 }
